@@ -184,3 +184,46 @@ def check_rng_closure(ctx, roots, max_depth=4):
         frontier = nxt
         depth += 1
     return seen
+
+
+# ----------------------------------------------------------------------------- argument forwarding (wrappers)
+def forwarding_obligations(ctx, wrapper_target, callee_target, exempt=()):
+    """Contract of a thin wrapper: every parameter it shares (by name) with the callee it
+    delegates to reaches that callee unchanged.  One obligation per shared parameter."""
+    m, ci, fn = frontend.resolve(wrapper_target)
+    m2, ci2, callee = frontend.resolve(callee_target)
+    wname = wrapper_target.split(":")[1]
+    cname = callee_target.split(":")[1].split(".")[-1]
+    wparams = [a.arg for a in fn.args.args if a.arg not in ("self", "cls")] + [a.arg for a in fn.args.kwonlyargs]
+    cparams = [a.arg for a in callee.args.args if a.arg not in ("self", "cls")] + [a.arg for a in callee.args.kwonlyargs]
+    calls = [n for n in ast.walk(fn) if isinstance(n, ast.Call) and (
+        (isinstance(n.func, ast.Attribute) and n.func.attr == cname) or (isinstance(n.func, ast.Name) and n.func.id == cname))]
+    t0 = time.time()
+    ctx.add_function(wrapper_target)
+    failures = []
+    if not calls:
+        ctx.obligation("%s.delegates-to[%s]" % (wname, cname), "refuted", "effects", 0.0, wrapper_target, detail="no call of %s found" % cname)
+        failures.append(("%s.delegates-to[%s]" % (wname, cname), None))
+        return failures
+    for p in wparams:
+        if p not in cparams or p in exempt:
+            continue
+        ok = True
+        for call in calls:
+            passed = None
+            for k in call.keywords:
+                if k.arg == p:
+                    passed = k.value
+                elif k.arg is None:
+                    passed = k.value  # **kwargs
+            pos = cparams.index(p)
+            if passed is None and len(call.args) > pos:
+                passed = call.args[pos]
+            if passed is None or not _mentions(passed, p):
+                ok = False
+        name = "%s.forwards[%s -> %s]" % (wname, p, cname)
+        ctx.obligation(name, "proved" if ok else "refuted", "effects", time.time() - t0, wrapper_target,
+                       detail=None if ok else "parameter %s is accepted but not passed on to %s" % (p, cname))
+        if not ok:
+            failures.append((name, p))
+    return failures
